@@ -466,12 +466,19 @@ def run_one(harness_factory, params, prefix, expect=None, keep_trace=False):
                 horizon=getattr(h, 'horizon', HORIZON))
   s.keep_trace = keep_trace
   h.setup(s)
+  from . import env as _env
+  _env.IN_CONTROLLED_RUN[0] = True
+  _env.MODEL_MISSING[0] = None
   try:
     s.run()
   except Nondeterminism as e:
     raise Nondeterminism('%s | params=%r prefix=%r' % (e, params, list(prefix)))
   finally:
+    _env.IN_CONTROLLED_RUN[0] = False
     h.teardown(s)
+  if _env.MODEL_MISSING[0]:
+    raise core.HarnessError('%s was called inside a controlled run of a harness that has no model of the reactor thread '
+                            '(params=%r)' % (_env.MODEL_MISSING[0], params))
   return s, h
 
 
